@@ -2,7 +2,7 @@
 from .. import incr, simlib
 
 MANIFEST = dict(engine="nsim", category="exploration", technique="runtime monitoring: nsim traces of generated histories; oracle = from-scratch evaluation of the same scenario (reference model + ninja's own clean build)",
-                text='Generated graphs (explicit/implicit/order-only inputs, multiple and implicit outputs, phony aliases, restat, generator, depfile / deps=gcc / deps=msvc with source and generated headers, validations, pools, rspfiles, sub-directories) are put through generated histories (source/header edits, touches, output/depfile/log deletions, command and rspfile changes, failing, interrupted and partial builds, edits while a command runs) in nsim with PRNG completion orders and -j/-k values. After EVERY build that exits 0 without a concurrent edit, every output in the closure of the requested targets (through declared, dyndep and recorded discovered inputs and validations) is compared with the content a from-scratch evaluation of the current sources and manifest gives.',
+                text='Generated graphs (explicit/implicit/order-only inputs, multiple and implicit outputs, phony aliases, restat, generator, depfile / deps=gcc / deps=msvc with source and generated headers, validations, pools, rspfiles, sub-directories) are put through generated histories (source/header edits, touches, output/depfile/log deletions, command, rspfile and manifest changes (including a manifest that ninja regenerates and reloads itself), failing, interrupted and partial builds, edits while a command runs) in nsim with PRNG completion orders and -j/-k values. After EVERY build that exits 0 without a concurrent edit, every output in the closure of the requested targets (through declared, dyndep and recorded discovered inputs and validations) is compared with the content a from-scratch evaluation of the current sources and manifest gives.',
                 note="Trusted: the command function shared by harness/nsim.cc and vlib/simlib.py, the reference evaluator Graph.clean() (cross-checked against ninja's own from-scratch build in C04/C10), logical clock (all mtimes distinct). Generator rules: command line and rspfile content are not part of their output (documented exemption). Known finding: output re-created by a failed command.", ref="DESIGN.md §5 C01")
 
 
@@ -18,7 +18,15 @@ def run(ctx):
     incr.run_incremental(ctx, "C01", n // 3, salt=1, size_range=(3, 7),
                          feat=dict(restat=0.55, order_only=0.7, deps=0.6, generator=0.1, phony=0.35),
                          change_kinds=["touch", "touch", "edit", "edit_hdr", "rm_out", "cmd", "rm_depfile"])
-    ctx.rule = ("seeded random graphs of 3..%d statements x histories of 2..5 change+build rounds (plus immediate re-runs); "
+    # alias-heavy family: restat outputs and edited headers grouped behind phony aliases, several changes per round
+    # (restat pruning has to look through an alias at something that changed in the same increment)
+    incr.run_incremental(ctx, "C01", n // 3, salt=2, size_range=(3, 6),
+                         feat=dict(restat=0.7, phony=0.5, deps=0.3, generator=0.0, chain=1.0, dyndep=0.0, vals=0.05),
+                         change_kinds=["touch", "touch", "edit", "edit_hdr", "edit_hdr"], nchg_choices=(2, 2, 3, 4),
+                         allow_faults=False, allow_interrupt=False, allow_edit_running=False)
+    # self-regenerating manifests: build.ninja is a generator output selected by a config file
+    incr.run_regen(ctx, "C01", n // 10, size_range=(2, 6))
+    ctx.rule = ("seeded random graphs of 3..%d statements x histories of 2..5 change+build rounds (plus immediate re-runs), plus histories in which ninja regenerates and reloads its own manifest; "
                 "distinct_nontrivial = distinct (scenario, build step) pairs judged by this property's monitor that follow at "
                 "least one change" % (9 if quick else 14))
     ctx.assumptions = ["commands are deterministic functions of what they read at START and write only declared outputs",
